@@ -40,6 +40,9 @@ type zzTree struct {
 	stoppedN     map[string]int  // Stopped deliveries per id
 	bye          bool            // stopping children say goodbye to their parent
 	restartStops int             // Stopped deliveries that belong to a restart
+	doomed       bool            // mode 6: the root also spawns a child that dies during its own start
+	doomedPID    *PID
+	crashing     map[string]bool // the node is panicking on a zzBoom: the next Stopped belongs to that crash
 	late         bool            // some node was handed a message after it had handled Stopped
 }
 
@@ -61,6 +64,10 @@ func (n *zzNode) Receive(c *Context) {
 		} else if n.depth != 0 {
 			t.wrongPar = true
 		}
+		if n.depth == 0 && t.doomed && t.gen[id] == 1 {
+			// a child that terminates during its own start (panic in Started, no restart budget)
+			t.doomedPID = c.SpawnChild(func() Receiver { return &zzDoomed{t: t} }, "d", WithID("x"), WithMaxRestarts(0))
+		}
 		if n.depth < t.D && t.gen[id] == 1 {
 			for k := 0; k < t.F; k++ {
 				d := n.depth + 1
@@ -71,6 +78,7 @@ func (n *zzNode) Receive(c *Context) {
 			}
 		}
 	case zzBoom:
+		t.crashing[id] = true
 		panic("zz-boom")
 	case zzBye:
 		// queued while this node may already be shutting down (it waits for its children inside cleanup):
@@ -86,11 +94,14 @@ func (n *zzNode) Receive(c *Context) {
 			t.replaced[pid.ID] = pid
 		}
 	case Stopped:
-		if t.e.Registry.get(c.PID()) != nil {
-			// Stopped for a failed incarnation that is being restarted: the actor itself does not stop (cleanup
-			// unregisters the actor before it delivers the final Stopped)
-			t.restartStops++
-			break
+		if t.crashing[id] {
+			t.crashing[id] = false
+			if t.e.Registry.get(c.PID()) != nil {
+				// Stopped for a failed incarnation that is being restarted: the actor itself does not stop
+				// (when the budget is exhausted cleanup unregisters the actor before it delivers the final Stopped)
+				t.restartStops++
+				break
+			}
 		}
 		t.stoppedN[id]++
 		if t.rechild == id && !t.asked {
@@ -133,13 +144,14 @@ func ZZ_C08() {
 	F := zzrt.Param("F")
 	e, _ := zzBareEngine()
 	t := &zzTree{e: e, D: D, F: F, stopped: map[string]bool{}, kids: map[string][]*PID{}, parentOf: map[string]string{}, listed: map[string][]string{},
-		replaced: map[string]*PID{}, gen: map[string]int{}, stoppedN: map[string]int{}}
+		replaced: map[string]*PID{}, gen: map[string]int{}, stoppedN: map[string]int{}, crashing: map[string]bool{}}
 	// mode 3 = mode 0 without the third party and without the panicking child (no known finding is reachable):
 	// used by C04 for "nothing is delivered after Stopped" when messages are queued during the shutdown
 	mode := zzrt.Param("mode") // 0 shutdown interleavings, 1 respawn of the root id during shutdown (C10), 2 a stopping child is replaced (Children bookkeeping)
 	// mode 4: the root is spawned WithContext(app context); it may panic once on a user message (and is restarted)
 	// before Children() is probed; the app context may be cancelled before the root is stopped. Neither changes
 	// what a stopping parent owes its descendants.
+	t.doomed = mode == 6
 	appCtx, appCancel := context.WithCancel(context.Background())
 	budget := 3
 	if mode == 5 {
@@ -158,6 +170,25 @@ func ZZ_C08() {
 
 	if mode == 2 {
 		zzC08Replace(t, e, root)
+		return
+	}
+	if mode == 6 {
+		// the child that died during its own start is not alive: Children() must not list it, and the root's
+		// shutdown still takes the live children down
+		zzrt.Assert(t.doomedPID != nil && e.Registry.get(t.doomedPID) == nil && t.stopped[t.doomedPID.ID], "C08:harness-doomed-child-did-not-terminate")
+		e.Send(root, zzProbe{})
+		zzrt.Quiesce()
+		for _, id := range t.listed[root.ID] {
+			if t.doomedPID != nil && id == t.doomedPID.ID {
+				zzrt.Fail("C08:Children-lists-a-child-that-terminated-during-its-own-start")
+			}
+		}
+		zzrt.Assert(len(t.listed[root.ID]) == F, "C08:Children-differs-from-live-children")
+		ctx := e.Poison(root)
+		zzrt.Quiesce()
+		zzrt.Assert(ctx.(*context.CancelCtx).IsDone(), "C08:parent-shutdown-never-completes")
+		zzrt.Assert(!t.early, "C08:parent-handled-Stopped-before-a-descendant-was-stopped")
+		zzrt.Reach("child-died-during-its-start")
 		return
 	}
 	if mode == 5 {
@@ -296,6 +327,18 @@ func ZZ_C08() {
 		}
 	}
 	all(root.ID)
+}
+
+// zzDoomed panics in its Started handler: with a restart budget of 0 it terminates during its own start.
+type zzDoomed struct{ t *zzTree }
+
+func (d *zzDoomed) Receive(c *Context) {
+	switch c.Message().(type) {
+	case Started:
+		panic("zz-doomed-in-Started")
+	case Stopped:
+		d.t.stopped[c.PID().ID] = true
+	}
 }
 
 type zzLeaf struct{}
